@@ -51,7 +51,14 @@ def run(ctx, rnd):
             for v in vecs:
                 tzp.use(prov)                      # empties the cache
                 if v["cache"]:
-                    Calendar.from_ical(render([v["cache"], 0]))     # an earlier calendar that left `cache` behind
+                    # an earlier calendar that left `cache` behind: definition first, or -- same effect on the
+                    # cache -- a use that stands before its definition (a failed lookup must leave nothing behind)
+                    Calendar.from_ical(render([v["cache"], 0] if rnd.random() < 0.5 else [0, v["cache"], 0]))
+                elif rnd.random() < 0.5:
+                    try:
+                        Calendar.from_ical(render([0]))             # an earlier calendar that only USES the id (lookup fails)
+                    except ValueError:
+                        pass
                 got = observe(v["cal"])
                 case = {"cache_before": v["cache"], "cal": v["cal"], "provider": prov, "impl_equal": got == v["impl"], "kf": v["kf"]}
                 ctx.case((prov, v["cache"], tuple(v["cal"])), v["cache"] != 0 or v["cal"][0] == 0)
